@@ -342,13 +342,13 @@ func (n *BaseNode) InsertAfter(self, v1, insertee Node) {
 
 // InsertBefore implements Node.InsertBefore .
 func (n *BaseNode) InsertBefore(self, v1, insertee Node) {
-	n.childCount++
-	if v1 == nil {
+	if v1 == nil || v1.Parent() != self {
 		n.AppendChild(self, insertee)
 		return
 	}
 	ensureIsolated(insertee)
 	if v1.Parent() == self {
+		n.childCount++
 		c := v1
 		prev := c.PreviousSibling()
 		if prev != nil {
